@@ -121,4 +121,12 @@ func init() {
 	c("c07-fromjson-lines-mode", "C07.fromjson", jsongo, "return decodeJSONEx(d, false)", "return decodeJSONEx(d, true)", "json:mode")
 	c("c07-haltprint-wrapped", "C07.haltprint", interp, "bs, _ := gojq.Marshal(haltErrV)", "bs, _ := gojq.Marshal([]any{haltErrV})", "halt-print:json")
 	c("c07-haltstream-stdout", "C07.haltstream", interp, "if _, err := i.OS.Stderr().Write(bs); err != nil {", "if _, err := i.OS.Stdout().Write(bs); err != nil {", "halt-write")
+
+	// ---- round 4: the query rewrite every program goes through (borrowed rules)
+	const evaljq = "pkg/interp/eval.jq"
+	c("c07-rewrite-skip-ident", "C07.rewrite", evaljq, "    | if $opts.catch_query then\n", "    | if $opts.catch_query and (_query_is_ident | not) then\n", "stage:missing:try")
+	c("c07-rewrite-no-parens", "C07.rewrite", evaljq, "            | _query_query\n", "", "try:paren")
+	c("c07-perinput-skip-ident", "C07.perinput", evaljq, "    | if $opts.catch_query then\n", "    | if $opts.catch_query and (_query_is_ident | not) then\n", "rewrite:try-inside-inputs")
+	c("c07-perinput-inputs-inside-try", "C07.perinput", evaljq, "_query_pipe($opts.input_query; .)", "_query_pipe(.; $opts.input_query)", "rewrite:try-inside-inputs")
+	c("c07-perinput-handler-raises", "C07.perinput", "pkg/interp/init.jq", "  | (_error_str([input_filename // empty]) | printerrln)\n  );", "  | (_error_str([input_filename // empty]) | printerrln)\n  | error\n  );", "on_expr_error:continues")
 }
